@@ -46,9 +46,79 @@ OPERATOR_FUNCS = {"eq": lambda a, b: a == b, "ne": lambda a, b: a != b,
                   "contains": lambda a, b: b in a}
 
 
+class Unordered(Unknown):
+    """the expression turns a set into a sequence: the order is undefined"""
+
+
+class USet(frozenset):
+    """a set value produced by the evaluated expression (iteration order is
+    not defined – only sorted() may turn it into a sequence)"""
+
+
+class Model:
+    """object with attributes for the evaluator (e.g. a basin with a type)"""
+
+    def __init__(self, **kw):
+        self.__dict__.update(kw)
+
+
 class Mini:
     """Evaluate a closed expression.  `env` maps normalised source text
     (``txt(node)``) to Python values; look-ups go through it first."""
+
+    def _comprehension(self, e):
+        """-> list of element values (in generator order)"""
+        out = []
+
+        def rec(gens, env):
+            if not gens:
+                out.append(Mini(env).ev(e.elt))
+                return
+            g = gens[0]
+            it = Mini(env).ev(g.iter)
+            if isinstance(it, USet) and isinstance(
+                    e, (ast.ListComp, ast.GeneratorExp)):
+                raise Unordered(txt(g.iter))
+            if not isinstance(it, (list, tuple, set, frozenset, str)):
+                raise Unknown(txt(g.iter))
+            names = [x.id for x in ast.walk(g.target)
+                     if isinstance(x, ast.Name)]
+            if not isinstance(g.target, ast.Name) and not (
+                    isinstance(g.target, ast.Tuple) and all(
+                        isinstance(x, ast.Name) for x in g.target.elts)):
+                raise Unknown(txt(g.target))
+            for v in it:
+                env2 = dict(env)
+                if isinstance(g.target, ast.Name):
+                    env2[g.target.id] = v
+                else:
+                    env2.update(dict(zip(names, v)))
+                if all(Mini(env2).ev(c) for c in g.ifs):
+                    rec(gens[1:], env2)
+        rec(list(e.generators), self.env)
+        return out
+
+    def _collection_call(self, e):
+        """sorted / set / list / tuple / reversed / frozenset"""
+        fn = dotted(e.func)
+        args = [self.ev(a) for a in e.args]
+        kw = {k.arg: self.ev(k.value) for k in e.keywords}
+        if None in kw or len(args) > 1 or (fn != "sorted" and kw):
+            raise Unknown(txt(e))
+        src = args[0] if args else []
+        if not isinstance(src, (list, tuple, set, frozenset, str)):
+            raise Unknown(txt(e))
+        if fn in ("set", "frozenset"):
+            return USet(src)
+        if fn == "sorted":
+            if set(kw) - {"key", "reverse"}:
+                raise Unknown(txt(e))
+            return sorted(src, **kw)
+        if isinstance(src, USet):
+            raise Unordered(txt(e))
+        if fn == "reversed":
+            return list(reversed(src))
+        return list(src) if fn == "list" else tuple(src)
 
     def __init__(self, env):
         self.env = dict(env)
@@ -112,6 +182,8 @@ class Mini:
             idx = self.ev(e.slice)
             if isinstance(base, (str, list, tuple)) and isinstance(idx, int):
                 return base[idx]
+            if isinstance(base, dict) and idx in base:
+                return base[idx]
             raise Unknown(txt(e))
         if isinstance(e, ast.UnaryOp) and isinstance(e.op, ast.USub):
             return -self.ev(e.operand)
@@ -135,6 +207,35 @@ class Mini:
                     raise Unknown("lambda arity")
                 return Mini({**_env, **dict(zip(_params, vals))}).ev(_body)
             return closure
+        if isinstance(e, ast.Attribute):
+            try:
+                base = self.ev(e.value)
+            except Unordered:
+                raise
+            except Unknown:
+                base = None
+            if isinstance(base, Model) and hasattr(base, e.attr):
+                return getattr(base, e.attr)
+            if isinstance(base, (list, tuple)) and e.attr in ("index",
+                                                              "count"):
+                return getattr(base, e.attr)
+            if isinstance(base, dict) and e.attr == "get":
+                return base.get
+        if isinstance(e, ast.Dict) and all(k is not None for k in e.keys):
+            return {self.ev(k): self.ev(v) for k, v in zip(e.keys, e.values)}
+        if isinstance(e, (ast.ListComp, ast.GeneratorExp)):
+            return self._comprehension(e)
+        if isinstance(e, ast.SetComp):
+            return USet(self._comprehension(e))
+        if isinstance(e, ast.Call) and dotted(e.func) in (
+                "sorted", "set", "list", "tuple", "reversed",
+                "frozenset") and dotted(e.func) not in self.env:
+            try:
+                return self._collection_call(e)
+            except Unknown:
+                raise
+            except Exception as exc:
+                raise Unknown(f"{txt(e)} raises {type(exc).__name__}")
         if isinstance(e, ast.Call) and not e.keywords:
             try:
                 if isinstance(e.func, ast.Attribute) \
